@@ -73,5 +73,145 @@ def run(ctx):
                   workers=4, expect_violation=True)
 
 
+    tcr_part(ctx)
+
+
+# ---------------------------------------------------------------------------------------------- TCRdist part
+
+STANDINS = os.path.join(os.path.dirname(os.path.dirname(os.path.dirname(os.path.abspath(__file__)))), "standins")
+
+
+def _tables():
+    import pandas as pd
+    out = {}
+    for c in ("alpha", "beta"):
+        out[c] = pd.read_csv(os.path.join("/repo/pyrepseq/data", f"vdists_{c}.csv"), index_col=0)
+    return out
+
+
+def tcr_case(rng, tables):
+    import pandas as pd
+    n = rng.randint(2, 10)
+    fam_a = [nc.repertoire(rng, 1, minlen=7, maxlen=13)[0] for _ in range(2)]
+    fam_b = [nc.repertoire(rng, 1, minlen=7, maxlen=13)[0] for _ in range(2)]
+    va = [rng.choice(list(tables["alpha"].index[:12])) for _ in range(n)]
+    vb = [rng.choice(list(tables["beta"].index[:12])) for _ in range(n)]
+    ca = ["C" + nc.mutate(rng, rng.choice(fam_a), rng.randint(0, 2)) + "F" for _ in range(n)]
+    cb = ["C" + nc.mutate(rng, rng.choice(fam_b), rng.randint(0, 2)) + "F" for _ in range(n)]
+    if rng.random() < 0.2:
+        cb[rng.randrange(n)] = "CASF"            # shorter than the trimming
+    index = rng.choice([None, list(range(10, 10 + n)), [f"t{i}" for i in range(n)], list(range(n))[::-1]])
+    df = pd.DataFrame(dict(TRAV=va, CDR3A=ca, TRBV=vb, CDR3B=cb, extra=list(range(n))), index=index)
+    chain = rng.choice(["alpha", "beta", "both"])
+    k = rng.choice([1, 2, 2, 3])
+    eot = rng.random() < 0.7
+    maxt = rng.choice([0, 12, 20, 24, 50, 100, 400])
+    kwargs = rng.choice([{}, {}, dict(ntrim=2, ctrim=1), dict(dist_weight=1, gap_penalty=4), dict(fixed_gappos=True)])
+    return df, chain, k, eot, maxt, kwargs
+
+
+def tcr_session(sid, case, tables):
+    import pyrepseq.nn as nn
+    import pwseqdist
+    df, chain, k, eot, maxt, kwargs = case
+    kw = dict(use_numba=True, fixed_gappos=False, ntrim=3, ctrim=2, dist_weight=3, gap_penalty=12)
+    kw.update(kwargs)
+    cand_chain = "beta" if chain in ("beta", "both") else "alpha"
+    chains = [cand_chain] + (["alpha"] if chain == "both" else [])
+    L = {"alpha": "A", "beta": "B"}
+    n = len(df)
+    cd = list(df[f"CDR3{L[cand_chain]}"])
+    T = [s[kw["ntrim"]:len(s) - kw["ctrim"]] if (eot and len(s) > kw["ntrim"] + kw["ctrim"]) else ("" if eot else s) for s in cd]
+    vd, c3 = [], []
+    for c in chains:
+        v = list(df[f"TR{L[c]}V"])
+        seqs = list(df[f"CDR3{L[c]}"])
+        vd.append([[int(tables[c].loc[v[i], v[j]]) for j in range(n)] for i in range(n)])
+        c3.append([[int(pwseqdist.metrics.nb_vector_tcrdist(seqs[i], seqs[j], **kw)) for j in range(n)] for i in range(n)])
+    inp = dict(T=[nc.enc(t) for t in T], k=k, nchains=len(chains), vd=vd, c3=c3, maxt=maxt)
+    before = df.copy(deep=True)
+    kwargs_before = dict(kwargs)
+    raised, ret = None, []
+    try:
+        r = nn.nearest_neighbor_tcrdist(df, chain=chain, max_edits=k, edit_on_trimmed=eot, max_tcrdist=maxt, tcrdist_kwargs=kwargs)
+        for t in r:
+            d = float(t[2])
+            ret.append([int(t[0]) + 1, int(t[1]) + 1, int(d) if d == int(d) else -7])
+    except Exception as e:    # noqa: BLE001
+        raised = e
+    ev = dict(op="Call", raised=raised is not None, ret=ret, exc=(type(raised).__name__ + ": " + str(raised)[:200]) if raised is not None else "")
+    desc = dict(chain=chain, max_edits=k, edit_on_trimmed=eot, max_tcrdist=maxt, tcrdist_kwargs=kwargs,
+                rows=df.reset_index().astype(str).values.tolist(), index=[str(x) for x in df.index])
+    untouched = before.equals(df) and list(before.index) == list(df.index) and kwargs == kwargs_before
+    return dict(sid=sid, inp=inp, events=[ev], desc=desc, untouched=untouched)
+
+
+def tcr_part(ctx):
+    if STANDINS not in sys.path:
+        sys.path.insert(0, STANDINS)
+    import importlib
+    import pyrepseq.nn as nn
+    if not hasattr(nn, "pwseqdist"):
+        importlib.reload(nn)
+    from .. import tracecommon as tcm
+    ctx.mc("TcrNN", "TcrNN.cfg", workers=16)
+    tables = _tables()
+    sessions = []
+    # the bundled tables themselves
+    for n_, c in enumerate(("alpha", "beta")):
+        t = tables[c]
+        sessions.append(dict(sid=800 + n_, inp=dict(T=[[0]], k=1, nchains=1, vd=[[[0]]], c3=[[[0]]], maxt=0),
+                             events=[dict(op="Table", m=t.values.astype(int).tolist(), index=list(map(str, t.index)),
+                                          columns=list(map(str, t.columns)))], desc=dict(table=c), untouched=True))
+    ncase = 40 if ctx.quick else 400
+    for r in range(ncase):
+        sessions.append(tcr_session(r + 1, tcr_case(ctx.rng, tables), tables))
+    consts = "  Letters = {0}\n  MaxLen = 0\n  MaxN = 1\n  Ks = {1}\n  Vals = {0}\n  MaxTs = {0}\n  Chains = {1}"
+    verd = tcm.validate(ctx, "TraceTcr", [dict(sid=s["sid"], inp=s["inp"], events=s["events"]) for s in sessions],
+                        constants=consts, invariants=("ResultExact", "ResultSymmetric"))
+    for s in sessions:
+        ctx.traces += 1
+        ev = s["events"][0]
+        if ev["op"] == "Call":
+            ctx.case(dict(kind="tcrdist_session", **{k: v for k, v in s["desc"].items() if k != "rows"}, n=len(s["inp"]["T"]), pairs=len(ev["ret"])),
+                     nontrivial=len(ev["ret"]) > 0)
+        else:
+            ctx.case(dict(kind="vtable", table=s["desc"]["table"], size=len(ev["m"])), nontrivial=True)
+        for l, op, clause in tcm.failures(verd[s["sid"]]):
+            key = f"tcrdist/{op}/{clause}" + ("/no-candidate-pair" if (clause == "raised" and "IndexError" in ev.get("exc", "")) else "")
+            ctx.violation(key, f"nearest_neighbor_tcrdist {s['desc']} -> {clause} {ev.get('exc', '')} ret={ev.get('ret')}"[:900],
+                          dict(kind="tcr", desc=s["desc"], inp=s["inp"], event=ev))
+        if not s["untouched"]:
+            ctx.violation("tcrdist/argument_mutated", f"nearest_neighbor_tcrdist modified its table or tcrdist_kwargs: {s['desc']}"[:600],
+                          dict(kind="tcr", desc=s["desc"]))
+    # corrupted traces must be rejected
+    import copy
+    good = [s for s in sessions if s["events"][0]["op"] == "Call" and s["events"][0]["ret"]][:3]
+    bad = []
+    for n_, s in enumerate(good):
+        c = copy.deepcopy(dict(sid=950 + n_, inp=s["inp"], events=s["events"]))
+        if n_ % 3 == 0:
+            c["events"][0]["ret"][0][2] += 1
+            want = "wrong_value"
+        elif n_ % 3 == 1:
+            c["events"][0]["ret"] = c["events"][0]["ret"][1:]
+            want = "missing_pair"
+        else:
+            c["inp"]["maxt"] = c["events"][0]["ret"][0][2] - 1
+            want = "spurious_pair"
+        bad.append((c, want))
+    if bad:
+        v2 = tcm.validate(ctx, "TraceTcr", [b for b, _ in bad], constants=consts, count=False)
+        for c, want in bad:
+            ok = any(cl == want for _, _, cl in tcm.failures(v2[c["sid"]]))
+            ctx.negative.append(dict(kind="corrupted_trace", corruption="tcr:" + want, rejected=ok))
+            if not ok:
+                raise npx.MachineryFailure(f"corrupted tcrdist trace ({want}) accepted")
+
+
 def replay(doc):
+    r = doc["replay"]
+    if r.get("kind") == "tcr":
+        print("re-run ./check C14 (tcrdist sessions are regenerated from the seed); recorded case:", r.get("desc"))
+        return 1
     return npx.replay_doc("C14", doc)
